@@ -278,6 +278,117 @@ func c11(r *core.Report, p *core.Prog, thorough bool) {
 		}
 		r.Check(zs == 1, "C11.mint-rewards", "MintRewards:zeroed", p.Pos(mr.Pos()), fmt.Sprintf("%d zeroing stores of DelegatePool.Reward", zs))
 	}
+	// ---- MintRewards: whenever the caller owns a delegate pool its reward is paid — no
+	// success exit with the pool present avoids the reward test; on the positive edge the
+	// transfer lies on every success path
+	{
+		var okIf *ssa.If
+		okTrue := 0
+		var pool ssa.Value
+		for _, b := range mr.Blocks {
+			for _, in := range b.Instrs {
+				lk, ok := in.(*ssa.Lookup)
+				if !ok || !lk.CommaOk {
+					continue
+				}
+				if _, pth := core.BaseObject(lk.X); !strings.HasSuffix(pth, ".Pools") {
+					continue
+				}
+				for _, ref := range *lk.Referrers() {
+					e, ok := ref.(*ssa.Extract)
+					if !ok {
+						continue
+					}
+					if e.Index == 0 {
+						pool = e
+					}
+					if e.Index == 1 {
+						for _, r2 := range *e.Referrers() {
+							if ifi, ok := r2.(*ssa.If); ok {
+								okIf, okTrue = ifi, 0
+							}
+						}
+					}
+				}
+			}
+		}
+		var rewIf *ssa.If
+		posSucc := 0
+		for _, b := range mr.Blocks {
+			ifi, ok := b.Instrs[len(b.Instrs)-1].(*ssa.If)
+			if !ok {
+				continue
+			}
+			bo, ok := ifi.Cond.(*ssa.BinOp)
+			if !ok {
+				continue
+			}
+			k, isK := core.ConstInt(bo.Y)
+			ld, isLd := bo.X.(*ssa.UnOp)
+			if !isK || k != 0 || !isLd {
+				continue
+			}
+			fa, ok := ld.X.(*ssa.FieldAddr)
+			if !ok || core.FieldOf(fa) != rewF || fa.X != pool {
+				continue
+			}
+			switch bo.Op {
+			case token.GTR, token.NEQ:
+				rewIf, posSucc = ifi, 0
+			case token.EQL, token.LEQ:
+				rewIf, posSucc = ifi, 1
+			}
+		}
+		okAll := okIf != nil && rewIf != nil
+		why := "no `pool, ok := sp.Pools[clientId]` / `pool.Reward > 0` structure"
+		if okAll {
+			path, _, found := core.PathQuery{Fn: mr, Start: okIf,
+				Barrier: func(in ssa.Instruction) bool { return in == ssa.Instruction(rewIf) },
+				EdgeOK: func(from *ssa.BasicBlock, succ int) bool {
+					if from == okIf.Block() && succ != okTrue {
+						return false
+					}
+					return core.FeasibleEdge(from, succ)
+				},
+				Target: func(in ssa.Instruction) bool {
+					ret, ok := in.(*ssa.Return)
+					return ok && core.ClassifyReturn(ret) != core.ExitFailure
+				}}.Find()
+			if found {
+				okAll = false
+				why = "with the caller's pool present a success exit is reachable without looking at its reward: " + p.PathString(path)
+			}
+		}
+		r.Check(okAll, "C11.mint-rewards", "MintRewards:pool-reward-always-considered", p.Pos(mr.Pos()), "a caller who owns a delegate pool cannot leave MintRewards successfully with that pool's reward unexamined (e.g. after only the service charge was paid); "+why)
+		if okAll {
+			for _, t := range TransferSites([]*ssa.Function{mr}) {
+				if !t.Resolved {
+					continue
+				}
+				path, _, found := core.PathQuery{Fn: mr, Start: rewIf,
+					Barrier: func(in ssa.Instruction) bool { return in == t.Site.Instr },
+					EdgeOK: func(from *ssa.BasicBlock, succ int) bool {
+						if from == rewIf.Block() && succ != posSucc {
+							return false
+						}
+						return core.FeasibleEdge(from, succ)
+					},
+					Target: func(in ssa.Instruction) bool {
+						ret, ok := in.(*ssa.Return)
+						return ok && core.ClassifyReturn(ret) != core.ExitFailure
+					}}.Find()
+				d := ""
+				if found {
+					d = p.PathString(path)
+				}
+				okT := !found
+				if c, ok := t.Site.Instr.(*ssa.Call); ok {
+					okT = okT && core.ErrLeadsToFailure(c)
+				}
+				r.Check(okT, "C11.mint-rewards", "MintRewards:positive-reward-transferred", p.Pos(t.Site.Pos()), "a positive pool reward is transferred on every success path, error aborting; "+d)
+			}
+		}
+	}
 	// ---- wrappers
 	nw := 0
 	for _, fn := range p.ModFuncs() {
